@@ -1,5 +1,6 @@
 import Xp.Base.Prog
 import Xp.Gen.C12
+import Xp.Model.C12Spec
 /-
 C12 model: the revision controller
 (internal/controller/apiextensions/composition/reconciler.go `Reconcile`,
@@ -9,14 +10,20 @@ revision.go `NewCompositionRevision`, apis/apiextensions/v1/composition_revision
 each written call by call as a `Xp.Prog` over an abstract store.
 
 Abstractions (recorded in props/C12.json):
-* the content of a Composition is `(labels, annotations-id, spec-id)`; the content
-  hash (`Composition.Hash`, sha256 of the YAML of labels, annotations and spec) and
-  the revision name derived from it are an abstract `Naming`; the theorems assume
-  it injective (also on the 63- and 7-character prefixes the code uses);
-* a revision carries only what the property talks about: name, the two
-  crossplane.io labels, `spec.revision`, the UID of its controller owner
-  reference, the user labels copied from the Composition, and an id for the rest
-  of its spec;
+* the content of a Composition is `(labels, annotations, spec)` with a structural
+  `Spec` (Model/C12Spec.lean); the content hash (`Composition.Hash`) and the revision
+  name derived from it are a `Naming`. The history theorems are stated for an abstract
+  `Naming` assumed injective on the contents that occur (`Naming.Inj`);
+  `Naming.ofDigest` is the naming the code implements: the digest (sha256, an oracle)
+  of the INPUT `hashToks c` = yaml(labels) ++ yaml(annotations) ++ yaml(spec) without
+  separator, label = first 63 digits, name = `<composition>-<first 7 digits>`.
+  `Proofs/C12H.lean` proves for which pairs of contents that input is injective
+  (`hashToks_eq_iff`) and derives `Naming.Inj` from a collision-free digest on every
+  set of contents without a label<->annotation move (`ofDigest_inj`);
+* a revision carries what the property talks about: name, the two crossplane.io
+  labels, `spec.revision`, the UID of its controller owner reference, the user
+  labels copied from the Composition, and the rest of its spec (`RevSpec`,
+  the field-by-field image `toRevisionSpec` of the Composition's spec);
 * resourceVersion conflicts: revisions and XRs carry a per-object `rv` that every
   change of the object bumps; an `Update` of a revision carries the revision as
   the controller read it (`base`) and is answered `conflict` when the stored
@@ -34,20 +41,33 @@ Abstractions (recorded in props/C12.json):
 -/
 namespace Xp.C12
 
-abbrev Labels := List (String × String)
-
 /-- What `Composition.Hash` hashes. -/
 structure Content where
   labels : Labels
-  annos : Nat
-  spec : Nat
+  annos : Labels
+  spec : Spec
   deriving DecidableEq, Repr
+
+/-- the input of `Composition.Hash`: `y = yaml(labels); y = append(y, yaml(annotations)...);
+y = append(y, yaml(spec)...)` — no separator between the three -/
+def hashToks (c : Content) : List Tok :=
+  mapToks c.labels ++ mapToks c.annos ++ [.spec c.spec]
 
 /-- `hash c` is the value of the composition-hash label (first 63 hex digits),
 `name comp c` the revision name `<comp>-<first 7 hex digits>`. -/
 structure Naming where
   hash : Content → String
   name : String → Content → String
+
+/-- `s[0:n]` when `len(s) >= n`, else `s` -/
+def takeStr (n : Nat) (s : String) : String := String.ofList (s.toList.take n)
+
+/-- The naming `Composition.Hash` + `NewCompositionRevision` implement, given the digest
+`dg` (sha256 in hex, as a function of the hash input): the hash label is its first 63
+characters (`hash[0:63]`), the revision name `fmt.Sprintf("%s-%s", c.GetName(), hash[0:7])`. -/
+def Naming.ofDigest (dg : List Tok → String) : Naming where
+  hash := fun c => takeStr Xp.Gen.revisionHashLabelLen (dg (hashToks c))
+  name := fun n c => n ++ "-" ++ takeStr Xp.Gen.revisionNameSuffixLen (takeStr Xp.Gen.revisionHashLabelLen (dg (hashToks c)))
 
 structure Comp where
   name : String
@@ -63,7 +83,7 @@ structure Rev where
   num : Nat            -- spec.revision
   ctrl : Option Nat    -- UID of the controller owner reference
   labels : Labels      -- the other labels (copied from the Composition at creation)
-  spec : Nat           -- id of the spec apart from `revision`
+  spec : RevSpec       -- the spec apart from `revision`
   rv : Nat             -- resourceVersion (per object: bumped by every change of the object)
   deriving DecidableEq, Repr
 
@@ -185,10 +205,27 @@ def latestRev (uid : Nat) (l : List Rev) : Option Rev := latestGo uid none l
 
 def latestNum (uid : Nat) (l : List Rev) : Nat := ((latestRev uid l).map (·.num)).getD 0
 
-/-- `NewCompositionRevision` -/
+/-- `NewCompositionRevision`, field by field -/
 def newRev (H : Naming) (c : Comp) (n : Nat) : Rev :=
-  { name := H.name c.name c.content, comp := c.name, hash := H.hash c.content, num := n,
-    ctrl := some c.uid, labels := c.content.labels, spec := c.content.spec, rv := 1 }
+  { name := H.name c.name c.content,      -- Name: fmt.Sprintf("%s-%s", c.GetName(), nameSuffix)
+    comp := c.name,                       -- Labels[LabelCompositionName] = c.GetName()
+    hash := H.hash c.content,             -- Labels[LabelCompositionHash] = hash[0:63]
+    spec := toRevisionSpec c.content.spec,  -- Spec: NewCompositionRevisionSpec(c.Spec, revision)
+    num := n,                             --   rs.Revision = revision
+    ctrl := some c.uid,                   -- meta.AddOwnerReference(cr, meta.AsController(ref))
+    labels := c.content.labels,           -- for k, v := range c.GetLabels() { cr.Labels[k] = v }
+    rv := 1 }
+
+/-- calls of `NewCompositionRevision` in source order (see `Xp.Gen.c12NewRevisionSkel`) -/
+def newRevSkel : List String :=
+  [ "c.Hash",                       -- `H.hash` / `H.name` (`Naming.ofDigest`: the digest of `hashToks`)
+    "len", "len",                   -- the two truncations [0:63], [0:7]
+    "fmt.Sprintf", "c.GetName",     -- `name`
+    "c.GetName",                    -- `comp`
+    "NewCompositionRevisionSpec",   -- `spec := toRevisionSpec …`, `num`
+    "meta.TypedReferenceTo", "meta.AddOwnerReference", "meta.AsController",  -- `ctrl`
+    "c.GetLabels" ]                 -- `labels` (a Composition label named like one of the two
+                                    -- reserved keys would override it: assumed absent)
 
 inductive Res where
   | done      -- nothing (more) to do
@@ -461,5 +498,71 @@ composition-name label (none if that label is empty). -/
 def enqueueFor (xrs : List XR) (r : Rev) : List String :=
   if r.comp = "" then [] else
   (xrs.filter fun x => x.policy ≠ some .manual && x.comp = r.comp).map (·.name)
+
+/-! ### declared call skeletons (equated with the regenerated `Xp.Gen.c12*Skel` in Props/C12.lean)
+
+One entry per call of the Go function, source order, with the model step mirroring it. -/
+
+/-- `Reconciler.Reconcile` (composition/reconciler.go): client verbs and the pure helpers whose
+position decides the outcome. Not in the verb set, not modelled: `r.record.Event`, logging,
+`context.WithTimeout`. -/
+def reconcileCallSkel : List String :=
+  [ "client.Get",                    -- `reconcile`: `.getComp name`
+    "resource.IgnoreNotFound",       --   `| .notFound => .ret .done`
+    "meta.WasDeleted",               --   `if c.deleting then .ret .done`
+    "comp.Hash",                     --   `H.hash c.content` (argument of `renumLoop`)
+    "client.List",                   --   `.listRevs [] c.name` (MatchingLabels{composition-name})
+    "metav1.IsControlledBy",         -- `adoptLoop`: `r.ctrl = some uid`
+    "meta.AddControllerReference",   --   `else if r.ctrl.isSome then .ret .err`
+    "client.Update",                 --   `.updateRev r { r with ctrl := some uid }`, any error aborts
+    "v1.LatestRevision",             -- `latestNum c.uid l'` on the list as updated by the loop
+    "client.Update",                 -- `renumLoop`: `.updateRev r { r with num := latest + 1 }`
+    "kerrors.IsConflict",            --   `| .conflict => .ret .requeue`
+    "client.Create",                 -- `.createRev (newRev H c (latest + 1))`
+    "NewCompositionRevision" ]       --   `newRev`
+
+/-- the client verb a request of the model stands for -/
+def Req.verb : Req → String
+  | .getComp _ | .getRev _ | .getXR _ => "Get"
+  | .listRevs _ _ => "List"
+  | .updateRev _ _ => "Update"
+  | .createRev _ | .createXR _ => "Create"
+  | .patchXR _ _ => "Patch"
+
+/-- the client verbs the program issues along the path chosen by the answers `as` -/
+def pathVerbs {α : Type} : P α → List Resp → List String
+  | .ret _, _ => []
+  | .call r _, [] => [r.verb]
+  | .call r k, a :: as => r.verb :: pathVerbs (k a) as
+
+/-- `v1.LatestRevision` (apis/apiextensions/v1/composition_revision.go) -/
+def latestRevisionSkel : List String :=
+  [ "metav1.IsControlledBy" ]        -- `latestGo`: `r.ctrl = some uid`
+
+/-- `APIRevisionFetcher.Fetch` (composite/api.go) -/
+def fetchSkel : List String :=
+  [ "cr.GetCompositionRevisionReference",  -- `x.ref`
+    "cr.GetCompositionUpdatePolicy",       -- `x.policy`
+    "ca.Get",                              -- Manual and referenced: `.getRev n`
+    "ca.Get",                              -- `.getComp x.comp`
+    "cr.GetCompositionReference",          --   (its argument)
+    "getCompositionRevisionList",          -- `.listRevs (fetchSel x) c.name`
+    "v1.LatestRevision",                   -- `latestRev c.uid l`, `none => .ret .err`
+    "cr.SetCompositionRevisionReference",  -- `if x.ref = some r.name then … else` the ref of the object patched
+    "ca.Apply" ]                           -- `.getXR` then `.patchXR x r.name` / `.createXR` (APIPatchingApplicator
+                                           -- of crossplane-runtime: Get, then Create or merge Patch of the whole object)
+
+/-- `APIRevisionFetcher.getCompositionRevisionList` -/
+def revisionListSkel : List String :=
+  [ "cr.GetCompositionUpdatePolicy", "cr.GetCompositionUpdatePolicy",          -- `fetchSel`: `x.policy = some .automatic`
+    "cr.GetCompositionRevisionSelector", "cr.GetCompositionRevisionSelector",  --   `x.selector.getD []`
+    "ca.List" ]   -- `.listRevs sel comp`; `ml[LabelCompositionName] = comp.GetName()` is the override in `exec`
+
+/-- `EnqueueForCompositionRevision`, CreateFunc (definition/handlers.go) -/
+def enqueueSkel : List String :=
+  [ "c.List",                          -- `enqueueFor xrs`: all XRs of the kind
+    "xr.GetCompositionUpdatePolicy",   --   `x.policy ≠ some .manual`
+    "xr.GetCompositionReference",      --   `x.comp = r.comp`
+    "q.Add" ]                          --   `.map (·.name)`
 
 end Xp.C12
